@@ -494,6 +494,10 @@ impl std::fmt::Write for NullSink {
     }
 }
 pub fn install_discard_logger() {
+    // VERIF_NO_LOGGER=1: leave the process without a logger (the other host configuration; results must not differ)
+    if std::env::var_os("VERIF_NO_LOGGER").is_some() {
+        return;
+    }
     static LOGGER: DiscardLogger = DiscardLogger;
     if log::set_logger(&LOGGER).is_ok() {
         log::set_max_level(log::LevelFilter::Trace);
